@@ -32,7 +32,7 @@ fn mk(i: usize) -> Ret<u32> {
 }
 
 // ---- direct use: ret / drop ----
-// @verif prop=C05 tier=quick timeout=600 mem=8 unwind=6
+// @verif prop=C05 tier=quick timeout=1200 mem=8 unwind=6
 // @enc Ret::new Ret::ret Ret::drop
 // @sym message value; choice ret / drop
 // @bound one Ret
@@ -117,35 +117,35 @@ macro_rules! rf_harness {
         }
     };
 }
-// @verif prop=C05,C18 tier=quick timeout=500 mem=24 unwind=12 unwindset=drop_glue::<\[.*Stakker\)>\]>\.0$:1 alt=ms-nu
+// @verif prop=C05,C18 tier=quick timeout=1200 mem=24 unwind=12 unwindset=drop_glue::<\[.*Stakker\)>\]>\.0$:1 alt=ms-nu
 // @enc Ret::{new,ret,drop} Core::{defer,lazy,idle} Stakker::run
 // @sym message value
 // @bound one Ret in each of the main, lazy and idle queues; run(idle=true)
 // @stub std::hash::RandomState::new -> fixed keys
 // @assume multi-stakker,no-unsafe-queue build
 rf_harness!(ret_in_queues_run, in_queues(true));
-// @verif prop=C05,C16,C18 tier=quick timeout=500 mem=24 unwind=12 unwindset=drop_glue::<\[.*Stakker\)>\]>\.0$:3 alt=ms-nu
+// @verif prop=C05,C16,C18 tier=quick timeout=1200 mem=24 unwind=12 unwindset=drop_glue::<\[.*Stakker\)>\]>\.0$:3 alt=ms-nu
 // @enc Ret::{new,drop} Stakker::drop Core::{defer,lazy,idle}
 // @sym message value
 // @bound one Ret in each of the main, lazy and idle queues; Stakker dropped without running
 // @stub std::hash::RandomState::new -> fixed keys
 // @assume multi-stakker,no-unsafe-queue build
 rf_harness!(ret_in_queues_drop, in_queues(false));
-// @verif prop=C05 tier=quick timeout=500 mem=24 unwind=12 unwindset=drop_glue::<\[.*Stakker\)>\]>\.0$:1,::advance\.1$:2,::advance\.0$:3,::add\.0$:2,::add\.1$:1
+// @verif prop=C05 tier=quick timeout=1200 mem=24 unwind=12 unwindset=drop_glue::<\[.*Stakker\)>\]>\.0$:1,::advance\.1$:2,::advance\.0$:3,::add\.0$:2,::add\.1$:1
 // @enc Ret::{new,ret,drop} Core::timer_add Stakker::run Timers::{add,advance}
 // @sym message value
 // @bound one Ret in a fixed timer that fires
 // @stub std::hash::RandomState::new -> fixed keys
 // @assume multi-stakker,no-unsafe-queue build; BTreeMap modelled by harness/model/vmap.rs
 rf_harness!(ret_in_timer_fired, in_timer(0));
-// @verif prop=C05 tier=quick timeout=500 mem=24 unwind=12 unwindset=drop_glue::<\[.*Stakker\)>\]>\.0$:1,::advance\.1$:2,::advance\.0$:3,::add\.0$:2,::add\.1$:1
+// @verif prop=C05 tier=quick timeout=1200 mem=24 unwind=12 unwindset=drop_glue::<\[.*Stakker\)>\]>\.0$:1,::advance\.1$:2,::advance\.0$:3,::add\.0$:2,::add\.1$:1
 // @enc Ret::{new,drop} Core::{timer_add,timer_del} Timers::{add,del}
 // @sym message value
 // @bound one Ret in a fixed timer that is deleted, then a run
 // @stub std::hash::RandomState::new -> fixed keys
 // @assume multi-stakker,no-unsafe-queue build; BTreeMap modelled by harness/model/vmap.rs
 rf_harness!(ret_in_timer_deleted, in_timer(1));
-// @verif prop=C05,C16 tier=quick timeout=500 mem=24 unwind=12 unwindset=drop_glue::<\[.*Stakker\)>\]>\.0$:3,::add\.0$:2,::add\.1$:1
+// @verif prop=C05,C16 tier=quick timeout=1200 mem=24 unwind=12 unwindset=drop_glue::<\[.*Stakker\)>\]>\.0$:3,::add\.0$:2,::add\.1$:1
 // @enc Ret::{new,drop} Core::timer_add Stakker::drop
 // @sym message value
 // @bound one Ret in a pending fixed timer; Stakker dropped
@@ -161,7 +161,7 @@ impl Drop for FTok {
         unsafe { FDROPS += 1 };
     }
 }
-// @verif prop=C16,C18 tier=quick timeout=900 mem=8 unwind=6 leakcheck=1 alt=ms-nu
+// @verif prop=C16,C18 tier=quick timeout=1200 mem=8 unwind=6 leakcheck=1 alt=ms-nu
 // @enc Fwd::{new,fwd,clone} FwdRc::{new,inner,clone} MinRc::{new_with,clone,drop}
 // @sym message values; order of dropping the two handles
 // @bound one Fwd, one clone, two calls, both dropped
